@@ -28,6 +28,7 @@ FFF = "litedram/frontend/fifo.py"
 
 def M(id, prop, ob, file, old, new, expect="refuted", **kw):
     d = {"id": id, "prop": prop, "ob": ob, "expect": expect, "edits": [{"file": file, "old": old, "new": new}]}
+    d["edits"].extend(kw.pop("more", []))
     d.update(kw)
     return d
 
@@ -328,4 +329,16 @@ MUTANTS = [
     M("c15.4-we-whole", "C15", "C15.4", ECF, "If(sink.we[i*ecc_width_from//8:(i+1)*ecc_width_from//8] != 0,", "If(sink.we != 0,"),
     M("c15.5-halves", "C15", "C15.5", ECF, "ecc_rdata = LiteDRAMNativePortECCR(port_from.data_width, port_to.data_width, burst_cycles)", "ecc_rdata = LiteDRAMNativePortECCR(port_from.data_width, port_to.data_width)"),
     M("c10.3-free-bytes", "C10", "C10.3", WBF, "wr_can_merge.eq(~wr_valid | ((wr_addr == wide_addr) & ((wr_sel & chunk_bit) == 0))),", "wr_can_merge.eq(~wr_valid | ((wr_addr == wide_addr) & ((wr_we & wr_chunk_we) == 0))),"),
+    # a property-preserving optimisation (next user command taken while the last sub-command is accepted, all three registers reloaded): must HOLD
+    B("c07.1-twin-back-to-back", "C07", ADF, "                If(cmd_count == (ratio - 1),\n                    NextState(\"IDLE\")\n                )", "                If(cmd_count == (ratio - 1),\n                    port_from.cmd.ready.eq(1),\n                    If(port_from.cmd.valid,\n                        NextValue(cmd_count, 0),\n                        NextValue(cmd_addr,  port_from.cmd.addr),\n                        NextValue(cmd_we,    port_from.cmd.we)\n                    ).Else(\n                        NextState(\"IDLE\")\n                    )\n                )"),
+    M("c07.1-b2b-stale-count", "C07", "C07.1", ADF, "                If(cmd_count == (ratio - 1),\n                    NextState(\"IDLE\")\n                )", "                If(cmd_count == (ratio - 1),\n                    port_from.cmd.ready.eq(1),\n                    If(port_from.cmd.valid,\n                        NextValue(cmd_addr,  port_from.cmd.addr),\n                        NextValue(cmd_we,    port_from.cmd.we)\n                    ).Else(\n                        NextState(\"IDLE\")\n                    )\n                )"),
+    M("c07.1-accept-early", "C07", "C07.1", ADF, "                If(cmd_count == (ratio - 1),\n                    NextState(\"IDLE\")\n                )", "                port_from.cmd.ready.eq(1),\n                If(port_from.cmd.valid,\n                    NextValue(cmd_count, 0),\n                    NextValue(cmd_addr,  port_from.cmd.addr),\n                    NextValue(cmd_we,    port_from.cmd.we)\n                ).Elif(cmd_count == (ratio - 1),\n                    NextState(\"IDLE\")\n                )"),
+    # read-only ports left out of the write-data multiplexer, arms re-indexed consistently: property-preserving, must HOLD; the broken variant
+    # (keys still the index among ALL masters) is seeded change C01_5
+    B("c01.3-twin-writers-only", "C01", XBF, "        wdata_cases = {}\n        for nm, master in enumerate(self.masters):\n            wdata_cases[2**nm] = [", "        wdata_masters = [nm for nm, master in enumerate(self.masters) if master.mode != \"read\"]\n        wdata_cases = {}\n        for j, nm in enumerate(wdata_masters):\n            master = self.masters[nm]\n            wdata_cases[2**j] = [",
+      more=[{"file": XBF, "old": "self.comb += Case(Cat(*master_wdata_readys), wdata_cases)", "new": "self.comb += Case(Cat(*[master_wdata_readys[nm] for nm in wdata_masters]), wdata_cases)"}]),
+    M("c09.8-no-read-drain", "C09", "C09.8", AXF, "If(self.rmw_rgrant & self.rmw_wgrant,", "If(self.rmw_wgrant,"),
+    M("c09.8-rgrant-weak", "C09", "C09.8", AXF, "self.comb += self.rmw_rgrant.eq(~r_buffer_queue & (r_buffer_level == 0))", "self.comb += self.rmw_rgrant.eq(~r_buffer_queue)"),
+    B("c09.8-twin-renamed-grant", "C09", AXF, "self.rmw_wgrant", "self.rmw_write_idle", count=9),
+    B("c08.1-twin-connects", "C08", ADF, "            self.submodules += stream.Pipeline(port_to.rdata, rdata_cdc, port_from.rdata)", "            self.comb += [port_to.rdata.connect(rdata_cdc.sink), rdata_cdc.source.connect(port_from.rdata)]"),
 ]
